@@ -41,6 +41,11 @@ def locate_arg(spec, model):
         return model
     if 'ctc' in spec:
         return model.ctcs[spec['ctc']]
+    if 'ast' in spec:
+        from flamapy.core.models.ast import AST
+        return AST(M.build_node(spec['ast']))
+    if 'node' in spec:
+        return M.build_node(spec['node'])
     if 'elem' in spec:
         from standin.run import elem_build
         return elem_build(spec['elem'])
